@@ -16,7 +16,7 @@ Definition nlink (g : graph) (pre : list edge) (l e : edge) : Prop :=
   ~ In (e_child e) (map e_child pre) /\ length pre < max_intermediate /\
   can_add (e_cert e) (e_root e) (map e_cert pre) = true.
 
-(* what continueWalking additionally demands of [e]: its own issuer is a node not yet in the chain *)
+(* what continueWalking additionally demands of a non-root [e]: its own issuer is a node not yet in the chain *)
 Definition gextra (pre : list edge) (e : edge) : Prop :=
   exists t, e_iss e = Some t /\ ~ In t (map e_child pre).
 
@@ -29,7 +29,7 @@ Fixpoint nlinks (g : graph) (pre : list edge) (l : edge) (suf : list edge) : Pro
 Fixpoint glinks (g : graph) (pre : list edge) (l : edge) (suf : list edge) : Prop :=
   match suf with
   | [] => e_root l = true
-  | e :: r => (nlink g pre l e /\ gextra pre e) /\ glinks g (pre ++ [e]) e r
+  | e :: r => (nlink g pre l e /\ (e_root e = false -> gextra pre e)) /\ glinks g (pre ++ [e]) e r
   end.
 
 Lemma in_chain_spec pre n : WF pre ->
@@ -54,6 +54,7 @@ Proof. unfold find_edge. intros H. apply find_some in H as [H1 H2]. apply N.eqb_
 Section Walk.
   Variable g : graph.
   Hypothesis G : GInv g.
+  Hypothesis R : RInv g.
 
   Lemma edge_wf e : In e (g_edges g) -> e_child e = node_of (e_cert e).
   Proof. intros He. apply (i_child g G _ (in_views g e He)). Qed.
@@ -69,6 +70,10 @@ Section Walk.
     - intros [e [p [He [Hi Ht]]]]. injection Ht as E1 E2 E3. subst. now exists e.
     - intros [e [He [Hi [Hc Hf]]]]. exists e, tgt. subst. now repeat split.
   Qed.
+
+  Lemma roots_spec n f :
+    In (n, f) (g_roots g) <-> exists e, In e (g_edges g) /\ e_root e = true /\ e_child e = n /\ e_fp e = f.
+  Proof. apply (proj2 (rinv_roots_exact g R)). Qed.
 
   Lemma cw_spec : forall fuel pre l ch,
     WF pre -> length pre <= max_intermediate -> S max_intermediate <= length pre + fuel ->
@@ -95,43 +100,60 @@ Section Walk.
         { split; [intros [] |]. intros [suf [Hg ->]]. destruct suf as [|e r]; simpl in Hg; [congruence|].
           destruct Hg as [[[_ [_ [_ [_ [Hl _]]]]] _] _]. apply Nat.leb_le in Hmax. lia. }
         apply Nat.leb_gt in Hmax.
-        rewrite in_flat_map. split.
-        * intros [[[c0 tgt] fp] [Ht Hin]].
-          destruct (node_eqb c0 n) eqn:Ec; simpl in Hin; [|contradiction].
-          apply node_eqb_eq in Ec. subst c0.
-          apply parents_spec in Ht as [e [He [Hie [Hce Hfe]]]].
-          assert (Htn : In tgt (g_nodes g)) by (apply (ginv_issuer_sound g G e tgt He Hie)).
-          apply mem_node_In in Htn. rewrite Htn in Hin. simpl in Hin.
-          destruct (in_chain tgt (map e_cert pre)) eqn:Htc; [contradiction|].
-          rewrite <- Hfe, (find_edge_in e He) in Hin.
-          destruct (can_add (e_cert e) (e_root e) (map e_cert pre)) eqn:Hca; [|contradiction].
-          replace (map e_cert pre ++ [e_cert e]) with (map e_cert (pre ++ [e])) in Hin by (now rewrite map_app).
-          apply IH in Hin.
-          -- destruct Hin as [suf [Hg ->]]. exists (e :: suf). split.
-             ++ simpl. split; [|exact Hg]. split.
-                ** unfold nlink. rewrite Hce. repeat split; auto.
-                   apply (in_chain_false pre n Hwf). exact Hinch.
-                ** exists tgt. split; [assumption|]. now apply (in_chain_false pre tgt Hwf).
-             ++ now rewrite <- app_assoc.
-          -- intros x Hx. apply in_app_or in Hx as [Hx | [<- | []]]; [now apply Hwf | now apply edge_wf].
-          -- rewrite app_length. simpl. lia.
-          -- rewrite app_length. simpl. lia.
+        assert (Hwf' : forall e, In e (g_edges g) -> WF (pre ++ [e])).
+        { intros e He x Hx. apply in_app_or in Hx as [Hx | [<- | []]]; [now apply Hwf | now apply edge_wf]. }
+        assert (Hl1 : forall e : edge, length (pre ++ [e]) <= max_intermediate) by (intros; rewrite app_length; simpl; lia).
+        assert (Hl2 : forall e : edge, S max_intermediate <= length (pre ++ [e]) + f) by (intros; rewrite app_length; simpl; lia).
+        assert (Hmap : forall e, map e_cert pre ++ [e_cert e] = map e_cert (pre ++ [e])) by (intros; now rewrite map_app).
+        rewrite in_app_iff, !in_flat_map. split.
+        * intros [[[c0 fp] [Ht Hin]] | [[[c0 tgt] fp] [Ht Hin]]].
+          -- (* a root edge of the current node *)
+             destruct (node_eqb c0 n) eqn:Ec; simpl in Hin; [|contradiction].
+             apply node_eqb_eq in Ec. subst c0.
+             apply roots_spec in Ht as [e [He [Hre [Hce Hfe]]]].
+             rewrite <- Hfe, (find_edge_in e He) in Hin.
+             destruct (can_add (e_cert e) true (map e_cert pre)) eqn:Hca; [|contradiction].
+             rewrite Hmap in Hin. apply IH in Hin; auto.
+             destruct Hin as [suf [Hg ->]]. exists (e :: suf). split; [|now rewrite <- app_assoc].
+             simpl. split; [|exact Hg]. split.
+             ++ unfold nlink. rewrite Hce, Hre. repeat split; auto.
+                apply (in_chain_false pre n Hwf). exact Hinch.
+             ++ intros Hf. congruence.
+          -- (* a non-root edge from the parents sets *)
+             destruct (node_eqb c0 n) eqn:Ec; simpl in Hin; [|contradiction].
+             apply node_eqb_eq in Ec. subst c0.
+             apply parents_spec in Ht as [e [He [Hie [Hce Hfe]]]].
+             assert (Htn : In tgt (g_nodes g)) by (apply (ginv_issuer_sound g G e tgt He Hie)).
+             apply mem_node_In in Htn. rewrite Htn in Hin. simpl in Hin.
+             destruct (in_chain tgt (map e_cert pre)) eqn:Htc; [contradiction|].
+             rewrite <- Hfe, (find_edge_in e He) in Hin.
+             destruct (e_root e) eqn:Hre; [contradiction|].
+             destruct (can_add (e_cert e) false (map e_cert pre)) eqn:Hca; [|contradiction].
+             rewrite Hmap in Hin. apply IH in Hin; auto.
+             destruct Hin as [suf [Hg ->]]. exists (e :: suf). split; [|now rewrite <- app_assoc].
+             simpl. split; [|exact Hg]. split.
+             ++ unfold nlink. rewrite Hce, Hre. repeat split; auto.
+                apply (in_chain_false pre n Hwf). exact Hinch.
+             ++ intros _. exists tgt. split; [assumption|]. now apply (in_chain_false pre tgt Hwf).
         * intros [suf [Hg ->]]. destruct suf as [|e r]; simpl in Hg; [congruence|].
-          destruct Hg as [[[_ [He [Hi [Hnot [Hl Hca]]]]] [tgt [Hie Htn]]] Hrest].
+          destruct Hg as [[[_ [He [Hi [Hnot [Hl Hca]]]]] Hext] Hrest].
           rewrite Hcur in Hi. inversion Hi as [Hn].
-          exists (n, tgt, e_fp e). split.
-          -- apply parents_spec. exists e. repeat split; auto.
-          -- cbv beta iota.
-             replace (node_eqb n (e_child e)) with true by (symmetry; apply node_eqb_eq; congruence).
-             cbn [negb].
-             assert (Hin_t : in_chain tgt (map e_cert pre) = false) by (now apply (in_chain_false pre tgt Hwf)).
-             rewrite Hin_t, andb_false_r. rewrite (find_edge_in e He), Hca.
-             replace (map e_cert pre ++ [e_cert e]) with (map e_cert (pre ++ [e])) by (now rewrite map_app).
-             apply IH.
-             ++ intros x Hx. apply in_app_or in Hx as [Hx | [<- | []]]; [now apply Hwf | now apply edge_wf].
-             ++ rewrite app_length. simpl. lia.
-             ++ rewrite app_length. simpl. lia.
-             ++ exists r. split; [assumption|]. now rewrite <- app_assoc.
+          assert (Hrec : In (map e_cert (pre ++ e :: r)) (cw f g (e_iss e) (map e_cert pre ++ [e_cert e]) e)).
+          { rewrite Hmap. apply IH; auto. exists r. split; [assumption|]. now rewrite <- app_assoc. }
+          destruct (e_root e) eqn:Hre.
+          -- left. exists (n, e_fp e). split.
+             ++ apply roots_spec. exists e. repeat split; auto.
+             ++ cbv beta iota.
+                replace (node_eqb n (e_child e)) with true by (symmetry; apply node_eqb_eq; congruence).
+                cbn [negb]. rewrite (find_edge_in e He), Hca. exact Hrec.
+          -- right. destruct (Hext eq_refl) as [tgt [Hie Htn]].
+             exists (n, tgt, e_fp e). split.
+             ++ apply parents_spec. exists e. repeat split; auto.
+             ++ cbv beta iota.
+                replace (node_eqb n (e_child e)) with true by (symmetry; apply node_eqb_eq; congruence).
+                cbn [negb].
+                assert (Hin_t : in_chain tgt (map e_cert pre) = false) by (now apply (in_chain_false pre tgt Hwf)).
+                rewrite Hin_t, andb_false_r. rewrite (find_edge_in e He), Hre, Hca. exact Hrec.
   Qed.
 End Walk.
 
@@ -142,21 +164,15 @@ Proof.
   destruct H as [[Hn _] Hr]. split; [assumption | now apply IH].
 Qed.
 
-(* the last edge of [suf], if any, has an issuer that is not a (subject, key) of the edges before it *)
-Fixpoint root_ok (pre suf : list edge) : Prop :=
-  match suf with
-  | [] => True
-  | e :: r => match r with [] => gextra pre e | _ => root_ok (pre ++ [e]) r end
-  end.
-
-Lemma nlinks_glinks g : forall suf pre l, nlinks g pre l suf -> root_ok pre suf -> glinks g pre l suf.
+(* conversely: the issuer of a non-root edge of a permitted path is the child of the next edge, hence new *)
+Lemma nlinks_glinks g : forall suf pre l, nlinks g pre l suf -> glinks g pre l suf.
 Proof.
-  induction suf as [|e r IH]; intros pre l H Hr; simpl in *; [assumption|].
+  induction suf as [|e r IH]; intros pre l H; simpl in *; [assumption|].
   destruct H as [Hn Hrest]. split.
-  - split; [assumption|]. destruct r as [|e2 r']; [exact Hr|].
+  - split; [assumption|]. intros Hre. destruct r as [|e2 r']; [simpl in Hrest; congruence|].
     simpl in Hrest. destruct Hrest as [[_ [_ [Hi [Hnot _]]]] _].
     exists (e_child e2). split; [assumption|]. intros Hin. apply Hnot. rewrite map_app. apply in_or_app. now left.
-  - apply IH; [assumption|]. destruct r as [|e2 r']; [exact I | exact Hr].
+  - now apply IH.
 Qed.
 
 Lemma nlinks_length g : forall suf pre l, nlinks g pre l suf -> length pre <= max_intermediate ->
@@ -238,6 +254,7 @@ Qed.
 Section Top.
   Variable g : graph.
   Hypothesis G : GInv g.
+  Hypothesis R : RInv g.
   Variable c : cert.
   Let s := start_edge g c.
 
@@ -263,12 +280,11 @@ Section Top.
   Qed.
 
   Definition permitted (p : list edge) : Prop := exists suf, p = s :: suf /\ nlinks g [s] s suf.
-  Definition root_issuer_ok (p : list edge) : Prop := root_ok [s] (tl p).
 
   Lemma walk_spec ch : In ch (walk g c) <-> exists suf, glinks g [s] s suf /\ ch = map e_cert (s :: suf).
   Proof.
     unfold walk. fold s. change [e_cert s] with (map e_cert [s]).
-    apply (cw_spec g G (S max_intermediate) [s] s ch start_wf); simpl; unfold max_intermediate; lia.
+    apply (cw_spec g G R (S max_intermediate) [s] s ch start_wf); simpl; unfold max_intermediate; lia.
   Qed.
 
   Lemma walk_sound ch : In ch (walk g c) -> exists p, permitted p /\ ch = map e_cert p.
@@ -277,10 +293,10 @@ Section Top.
     exists suf. split; [reflexivity | now apply glinks_nlinks].
   Qed.
 
-  Lemma walk_complete_partial p : permitted p -> root_issuer_ok p -> In (map e_cert p) (walk g c).
+  Lemma walk_complete p : permitted p -> In (map e_cert p) (walk g c).
   Proof.
-    intros [suf [-> Hn]] Hr. apply walk_spec. exists suf. split; [|reflexivity].
-    apply nlinks_glinks; assumption.
+    intros [suf [-> Hn]]. apply walk_spec. exists suf. split; [|reflexivity].
+    now apply nlinks_glinks.
   Qed.
 
   Lemma walk_length_bound ch : In ch (walk g c) -> 1 <= length ch <= max_intermediate.
@@ -358,12 +374,19 @@ Proof.
   - destruct cur as [n|]; [|contradiction].
     destruct (in_chain n sofar); [contradiction|].
     destruct (Nat.leb max_intermediate (length sofar)); [contradiction|].
-    apply in_flat_map in H as [[[c0 tgt] fp] [_ H]].
-    destruct (negb (node_eqb c0 n)); [contradiction|].
-    destruct (mem_node tgt (g_nodes g) && in_chain tgt sofar); [contradiction|].
-    destruct (find_edge fp (g_edges g)) as [e|]; [|contradiction].
-    destruct (can_add (e_cert e) (e_root e) sofar); [|contradiction].
-    apply IH in H as [r ->]. exists ([e_cert e] ++ r). now rewrite app_assoc.
+    apply in_app_or in H as [H | H].
+    + apply in_flat_map in H as [[c0 fp] [_ H]].
+      destruct (negb (node_eqb c0 n)); [contradiction|].
+      destruct (find_edge fp (g_edges g)) as [e|]; [|contradiction].
+      destruct (can_add (e_cert e) true sofar); [|contradiction].
+      apply IH in H as [r ->]. exists ([e_cert e] ++ r). now rewrite app_assoc.
+    + apply in_flat_map in H as [[[c0 tgt] fp] [_ H]].
+      destruct (negb (node_eqb c0 n)); [contradiction|].
+      destruct (mem_node tgt (g_nodes g) && in_chain tgt sofar); [contradiction|].
+      destruct (find_edge fp (g_edges g)) as [e|]; [|contradiction].
+      destruct (e_root e); [contradiction|].
+      destruct (can_add (e_cert e) false sofar); [|contradiction].
+      apply IH in H as [r ->]. exists ([e_cert e] ++ r). now rewrite app_assoc.
 Qed.
 
 Lemma NoDup_flat_map {A B} (f : A -> list B) (l : list A) :
@@ -394,64 +417,115 @@ Proof.
   - now apply IH.
 Qed.
 
-Lemma cw_nodup g : NoDup (map snd (g_parents g)) ->
+(* the chains found through one entry of rootEdges / one entry of a parents set *)
+Definition via_root (g : graph) (f : nat) (n : node) (sofar : list cert) (x : node * N) : list (list cert) :=
+  let '(ch, fp) := x in
+  if negb (node_eqb ch n) then [] else
+  match find_edge fp (g_edges g) with
+  | None => []
+  | Some e => if can_add (e_cert e) true sofar then cw f g (e_iss e) (sofar ++ [e_cert e]) e else []
+  end.
+Definition via_parent (g : graph) (f : nat) (n : node) (sofar : list cert) (t : trip) : list (list cert) :=
+  let '(ch, tgt, fp) := t in
+  if negb (node_eqb ch n) then [] else
+  if mem_node tgt (g_nodes g) && in_chain tgt sofar then [] else
+  match find_edge fp (g_edges g) with
+  | None => []
+  | Some e => if e_root e then [] else
+              if can_add (e_cert e) false sofar then cw f g (e_iss e) (sofar ++ [e_cert e]) e else []
+  end.
+
+(* a chain found through an entry with fingerprint fp continues [sofar] with the certificate of that edge *)
+Lemma via_root_next g f n sofar x z : In z (via_root g f n sofar x) ->
+  exists e r, find_edge (snd x) (g_edges g) = Some e /\ z = sofar ++ e_cert e :: r.
+Proof.
+  destruct x as [c0 fp]. simpl. destruct (negb (node_eqb c0 n)); [intros []|].
+  destruct (find_edge fp (g_edges g)) as [e|] eqn:E; [|intros []].
+  destruct (can_add (e_cert e) true sofar); [|intros []].
+  intros H. apply cw_prefix in H as [r ->]. exists e, r. split; [reflexivity | now rewrite <- app_assoc].
+Qed.
+
+Lemma via_parent_next g f n sofar t z : In z (via_parent g f n sofar t) ->
+  exists e r, find_edge (snd t) (g_edges g) = Some e /\ e_root e = false /\ z = sofar ++ e_cert e :: r.
+Proof.
+  destruct t as [[c0 tgt] fp]. simpl. destruct (negb (node_eqb c0 n)); [intros []|].
+  destruct (mem_node tgt (g_nodes g) && in_chain tgt sofar); [intros []|].
+  destruct (find_edge fp (g_edges g)) as [e|] eqn:E; [|intros []].
+  destruct (e_root e) eqn:Er; [intros []|].
+  destruct (can_add (e_cert e) false sofar); [|intros []].
+  intros H. apply cw_prefix in H as [r ->]. exists e, r. split; [reflexivity|]. split; [assumption | now rewrite <- app_assoc].
+Qed.
+
+Lemma next_cert_eq (sofar : list cert) c1 r1 c2 r2 : sofar ++ c1 :: r1 = sofar ++ c2 :: r2 -> c1 = c2.
+Proof. intros E. apply app_inv_head in E. now inversion E. Qed.
+
+Lemma cw_nodup g : RInv g -> NoDup (map e_fp (g_edges g)) -> NoDup (map snd (g_parents g)) ->
   forall fuel cur sofar last, NoDup (cw fuel g cur sofar last).
 Proof.
-  intros Hp. induction fuel as [|f IH]; intros cur sofar last; [constructor|].
+  intros R Hfps Hp. induction fuel as [|f IH]; intros cur sofar last; [constructor|].
   cbn [cw]. destruct (e_root last); [constructor; [intros [] | constructor]|].
   destruct cur as [n|]; [|constructor].
   destruct (in_chain n sofar); [constructor|].
   destruct (Nat.leb max_intermediate (length sofar)); [constructor|].
-  apply NoDup_flat_map.
-  - now apply NoDup_map_snd_NoDup.
-  - intros [[c0 tgt] fp] _.
-    destruct (negb (node_eqb c0 n)); [constructor|].
-    destruct (mem_node tgt (g_nodes g) && in_chain tgt sofar); [constructor|].
-    destruct (find_edge fp (g_edges g)) as [e|]; [|constructor].
-    destruct (can_add (e_cert e) (e_root e) sofar); [apply IH | constructor].
-  - intros [[c1 t1] f1] [[c2 t2] f2] z Hx Hy Hne Hz1 Hz2.
-    apply Hne. apply (NoDup_map_inj_on snd (g_parents g)); auto. simpl.
-    destruct (negb (node_eqb c1 n)); [contradiction|].
-    destruct (mem_node t1 (g_nodes g) && in_chain t1 sofar); [contradiction|].
-    destruct (find_edge f1 (g_edges g)) as [e1|] eqn:E1; [|contradiction].
-    destruct (can_add (e_cert e1) (e_root e1) sofar); [|contradiction].
-    destruct (negb (node_eqb c2 n)); [contradiction|].
-    destruct (mem_node t2 (g_nodes g) && in_chain t2 sofar); [contradiction|].
-    destruct (find_edge f2 (g_edges g)) as [e2|] eqn:E2; [|contradiction].
-    destruct (can_add (e_cert e2) (e_root e2) sofar); [|contradiction].
-    apply cw_prefix in Hz1 as [r1 ->]. apply cw_prefix in Hz2 as [r2 E].
-    rewrite <- !app_assoc in E. apply app_inv_head in E. simpl in E. inversion E as [[Ec Er]].
-    apply find_edge_some in E1 as [_ <-]. apply find_edge_some in E2 as [_ <-].
-    unfold e_fp. now rewrite Ec.
+  change (NoDup (flat_map (via_root g f n sofar) (g_roots g) ++ flat_map (via_parent g f n sofar) (g_parents g))).
+  apply NoDup_app_intro.
+  - apply NoDup_flat_map.
+    + apply NoDup_map_snd_NoDup. apply (proj2 R).
+    + intros [c0 fp] _. simpl. destruct (negb (node_eqb c0 n)); [constructor|].
+      destruct (find_edge fp (g_edges g)) as [e|]; [|constructor].
+      destruct (can_add (e_cert e) true sofar); [apply IH | constructor].
+    + intros x y z Hx Hy Hne Hz1 Hz2. apply Hne. apply (NoDup_map_inj_on snd (g_roots g)); auto; [apply (proj2 R)|].
+      apply via_root_next in Hz1 as [e1 [r1 [E1 ->]]]. apply via_root_next in Hz2 as [e2 [r2 [E2 Ez]]].
+      apply next_cert_eq in Ez. apply find_edge_some in E1 as [_ <-]. apply find_edge_some in E2 as [_ <-].
+      unfold e_fp. now rewrite Ez.
+  - apply NoDup_flat_map.
+    + now apply NoDup_map_snd_NoDup.
+    + intros [[c0 tgt] fp] _. simpl. destruct (negb (node_eqb c0 n)); [constructor|].
+      destruct (mem_node tgt (g_nodes g) && in_chain tgt sofar); [constructor|].
+      destruct (find_edge fp (g_edges g)) as [e|]; [|constructor].
+      destruct (e_root e); [constructor|].
+      destruct (can_add (e_cert e) false sofar); [apply IH | constructor].
+    + intros x y z Hx Hy Hne Hz1 Hz2. apply Hne. apply (NoDup_map_inj_on snd (g_parents g)); auto.
+      apply via_parent_next in Hz1 as [e1 [r1 [E1 [_ ->]]]]. apply via_parent_next in Hz2 as [e2 [r2 [E2 [_ Ez]]]].
+      apply next_cert_eq in Ez. apply find_edge_some in E1 as [_ <-]. apply find_edge_some in E2 as [_ <-].
+      unfold e_fp. now rewrite Ez.
+  - (* a chain through rootEdges continues with a root edge, one through parents with a non-root edge *)
+    intros z Hz1 Hz2. apply in_flat_map in Hz1 as [x [Hx Hz1]]. apply in_flat_map in Hz2 as [t [Ht Hz2]].
+    apply via_root_next in Hz1 as [e1 [r1 [E1 ->]]]. apply via_parent_next in Hz2 as [e2 [r2 [E2 [Hr2 Ez]]]].
+    apply next_cert_eq in Ez.
+    destruct x as [n1 f1]. simpl in E1.
+    apply (proj1 R) in Hx. apply in_map_iff in Hx as [e [Ev He]]. unfold rview in Ev. inversion Ev as [[Ec Ef Er]].
+    (* e is the edge with fingerprint f1, so it is e1 *)
+    pose proof (find_edge_nodup _ _ Hfps He) as Xe. rewrite Ef, E1 in Xe. inversion Xe; subst e1.
+    (* e2 has the same certificate, hence the same fingerprint, hence is e *)
+    pose proof (find_edge_some _ _ _ E2) as [He2 Ef2].
+    pose proof (find_edge_nodup _ _ Hfps He2) as X2.
+    assert (Hsame : e_fp e2 = e_fp e) by (unfold e_fp; now rewrite Ez).
+    rewrite Hsame, (find_edge_nodup _ _ Hfps He) in X2. inversion X2; subst e2. congruence.
 Qed.
 
-Lemma walk_nodup g c : GInv g -> NoDup (walk g c).
-Proof. intros G. unfold walk. apply cw_nodup. apply (proj2 (i_parents g G)). Qed.
+Lemma walk_nodup g c : GInv g -> RInv g -> NoDup (walk g c).
+Proof.
+  intros G R. unfold walk. apply cw_nodup; [assumption | | apply (proj2 (i_parents g G))].
+  rewrite <- map_vfp_views. apply (i_fps g G).
+Qed.
 
-(* ------------------------------------------------------------------ the two classes of permitted paths the walk misses *)
-(* a root certificate whose own issuer is not in the graph *)
-Lemma complete_refuted_unknown_issuer :
+(* ------------------------------------------------------------------ concrete instances *)
+(* before repair the walk missed permitted paths ending at a root certificate whose own issuer is
+   not in the graph, or occurs earlier in the chain; the repaired walk returns them *)
+Lemma root_with_unknown_issuer_example :
   let r := mkCert 0 1 9 1 true true (-1) 0 9 [] in
   let l := mkCert 1 3 1 4 false false 0 0 9 [1%N] in
   let g := state_after empty_graph [AddRoot r; AddCert l] in
-  permitted g l [mkEdge l (Some (1, 1)%N) (3, 4)%N false; mkEdge r None (1, 1)%N true] /\ walk g l = [].
-Proof.
-  split; [|vm_compute; reflexivity].
-  eexists. split; [vm_compute; reflexivity|]. vm_compute.
-  repeat split; auto; try lia. intros [H | []]. discriminate.
-Qed.
+  walk g l = [[l; r]].
+Proof. vm_compute. reflexivity. Qed.
 
-(* a root certificate whose own issuer occurs earlier in the chain *)
-Lemma complete_refuted_issuer_in_chain :
+Lemma root_with_issuer_in_chain_example :
   let ab := mkCert 0 1 2 1 true true (-1) 0 9 [2%N] in     (* subject 1, issued by 2 *)
   let ba := mkCert 1 2 1 2 true true (-1) 0 9 [1%N] in     (* subject 2, issued by 1; trust anchor *)
   let g := state_after empty_graph [AddCert ab; AddRoot ba] in
-  permitted g ab [mkEdge ab (Some (2, 2)%N) (1, 1)%N false; mkEdge ba (Some (1, 1)%N) (2, 2)%N true] /\ walk g ab = [].
-Proof.
-  split; [|vm_compute; reflexivity].
-  eexists. split; [vm_compute; reflexivity|]. vm_compute.
-  repeat split; auto; try lia. intros [H | []]. discriminate.
-Qed.
+  walk g ab = [[ab; ba]].
+Proof. vm_compute. reflexivity. Qed.
 
 (* before repair f1334b8 the walk from a self-signed non-root S cross-signed by a root returned
    [S, S', R]; the repaired model returns nothing from S and only [leaf, S', R] from a leaf under S *)
